@@ -344,7 +344,7 @@ func TestPropLifecyclePanics(t *testing.T) {
 			stats.Class("start_panics_after_launching_work_then_retried")
 		}
 		if rapid.IntRange(0, 9).Draw(t, "stoptimeout") == 0 {
-			sc = stopPanicsWhileWorkOutlivesTheStop(rapid.SampledFrom(modsim.PanicKinds).Draw(t, "tpanic"), rapid.SampledFrom([]int{0, 2000, 100000}).Draw(t, "tstopdur"))
+			sc = stopPanicsWhileWorkOutlivesTheStop(rapid.SampledFrom(modsim.PanicKinds).Draw(t, "tpanic"), rapid.SampledFrom([]int{0, 2000, 50000}).Draw(t, "tstopdur"))
 			judgeC06Only(t, sc)
 			stats.Class("stop_panics_while_work_outlives_the_stop_timeout")
 			stats.Case(sc.Fingerprint(), true, "lifecycle_stop_timeout")
